@@ -856,16 +856,58 @@ class Model:
                 except Exception:
                     defs = []
                 for d in defs:
-                    if isinstance(d, ast.Assign) and isinstance(d.value, (ast.Name, ast.Attribute)):
-                        r = self.repo.resolve_expr(f.module, d.value)
-                        if isinstance(r, ClassInfo):
-                            out.add(r)
+                    if isinstance(d, (ast.Assign, ast.AnnAssign)) and d.value is not None:
+                        out |= self.class_objects(f, d.value)
                 return out, False
             out = set()
             for t in self.cg.resolve_call(f, e)[0]:
                 out |= self.ret_classes(t)
             return out, False
         return set(), builtin
+
+    def class_objects(self, f: FunctionInfo, e: ast.AST, depth: int = 0) -> Set[ClassInfo]:
+        """Repository classes the expression may evaluate to *as class objects* (`A`, `A if c else B`, `x or A`, a local bound to
+        one of these, an entry of a literal table of classes)."""
+        if depth > 4 or e is None:
+            return set()
+        if isinstance(e, ast.IfExp):
+            return self.class_objects(f, e.body, depth + 1) | self.class_objects(f, e.orelse, depth + 1)
+        if isinstance(e, ast.BoolOp):
+            out = set()
+            for v in e.values:
+                out |= self.class_objects(f, v, depth + 1)
+            return out
+        if isinstance(e, ast.Name) and self._shadowed(f, e.id):
+            out = set()
+            try:
+                defs = self.ctx.rd(f).defs_reaching(e)
+            except Exception:
+                defs = []
+            for d in defs:
+                if isinstance(d, (ast.Assign, ast.AnnAssign)) and d.value is not None and \
+                        any(isinstance(t, ast.Name) and t.id == e.id for t in (d.targets if isinstance(d, ast.Assign) else [d.target])):
+                    out |= self.class_objects(f, d.value, depth + 1)
+                elif isinstance(d, (ast.Import, ast.ImportFrom)):
+                    r = self.repo.resolve_expr(f.module, e)       # a function-level import: the module model indexes it as well
+                    if isinstance(r, ClassInfo):
+                        out.add(r)
+            return out
+        if isinstance(e, (ast.Name, ast.Attribute)):
+            r = self.repo.resolve_expr(f.module, e)
+            return {r} if isinstance(r, ClassInfo) else set()
+        if isinstance(e, ast.Dict):
+            out = set()
+            for v in e.values:
+                out |= self.class_objects(f, v, depth + 1)
+            return out
+        if isinstance(e, ast.Subscript) and isinstance(e.value, ast.Dict):
+            return self.class_objects(f, e.value, depth + 1)
+        if isinstance(e, ast.Call) and isinstance(e.func, ast.Attribute) and e.func.attr == "get" and isinstance(e.func.value, ast.Dict):
+            out = self.class_objects(f, e.func.value, depth + 1)
+            for a in e.args[1:]:
+                out |= self.class_objects(f, a, depth + 1)
+            return out
+        return set()
 
     def attr_classes(self, k: ClassInfo, attr: str) -> Tuple[Set[ClassInfo], bool]:
         key = (k, attr)
@@ -966,6 +1008,29 @@ class Model:
             stack.extend(self.ext_callees(g))
         return seen
 
+    def private_unit(self, f: FunctionInfo, hops: int = 2) -> Set[FunctionInfo]:
+        """Functions that form one unit of code with f through private helpers: the private (`_name`) functions f calls, and - when
+        f is private itself - the functions that call f (each up to `hops` steps)."""
+        cache = self.__dict__.setdefault("_unit_cache", {})
+        if f in cache:
+            return cache[f]
+        private = lambda h: h.name.startswith("_") and not h.name.startswith("__")
+        out, frontier = set(), {f}
+        for _ in range(hops):
+            nxt = set()
+            for x in frontier:
+                for t in self.ext_callees(x):
+                    if private(t) and t not in out and t != f:
+                        nxt.add(t)
+                if private(x):
+                    for h, _cs in self.ctx.cg.call_sites_of(x):
+                        if h not in out and h != f:
+                            nxt.add(h)
+            out |= nxt
+            frontier = nxt
+        cache[f] = out
+        return out
+
     def reaching_to(self, goals: Set[FunctionInfo]) -> Set[FunctionInfo]:
         """All functions from which a function in `goals` is reachable."""
         rev: Dict[FunctionInfo, Set[FunctionInfo]] = {}
@@ -1039,6 +1104,8 @@ def facts_of(ctx, c: Container) -> Facts:
     resets = [e for e in runtime if is_reset(e)]
     muts = [e for e in runtime if e.kind in MUTATING and e.kind != "escape" and not is_reset(e)]
     keyread_fs = {e.f for e in runtime if e.kind == "keyread"}
+    # a cache's miss branch (or its lookup) may live in a private helper of the function that does the other half
+    keyread_fs = keyread_fs | {h for f in keyread_fs for h in md.private_unit(f)}
     pure = bool(muts) and all(e.kind == "store" and e.f in keyread_fs for e in muts) and c.kind != "sys"
     if esc and c.kind != "namespace" and (not muts or pure):
         # an unrecognised use only matters where it could turn a constant table / pure cache into mutable state
@@ -1303,7 +1370,8 @@ class Slicer:
                 out |= R(x)
             return out
         if isinstance(e, ast.IfExp):
-            return R(e.test) | R(e.body) | R(e.orelse)
+            # data flow only: the test of `a if c else b` is control, exactly like the test of the equivalent if statement
+            return R(e.body) | R(e.orelse)
         if isinstance(e, ast.JoinedStr):
             out = set()
             for x in e.values:
@@ -1463,17 +1531,32 @@ def r2_cache_keys(ctx, rid):
                          "value_roots": _minimal(vroots), "not_determined_by_key": missing,
                          "read_keys": sorted({norm(r.key) for r in reads if r.key is not None})}
                 label = f"{c.key} [{norm(st.node)}]"
-                if {norm(r.key) for r in reads if r.key is not None} != {norm(st.key)} and read_roots != kroots:
-                    ctx.violation(rid, g, st.node, f"cache `{c.key}` is read under a key built from {sorted(read_roots)} but written under "
-                                  f"a key built from {sorted(kroots)}: a hit returns a value stored for something else", facts, label=label)
-                elif missing:
-                    ctx.violation(rid, g, st.node, f"the key of cache `{c.key}` does not determine the cached value: the value stored by "
-                                  f"`{norm(st.node)}` is built from {missing}, which the key `{norm(st.key)}` (built from {sorted(kroots)}) "
-                                  f"does not cover; a later caller that agrees only on the key silently receives the value computed for "
-                                  f"the earlier one", facts, label=label)
-                else:
-                    ctx.ok(rid, g, st.node, f"every input of the cached value ({_minimal(vroots)}) is covered by the key "
-                           f"`{norm(st.key)}` ({sorted(kroots)})", facts, label=label)
+                read_keys = {norm(r.key) for r in reads if r.key is not None}
+                views = [(g, kroots, vroots, read_roots, read_keys)]
+                base_bad = bool(missing) or (read_keys != {norm(st.key)} and read_roots != kroots)
+                if base_bad or not reads:
+                    # one half of the cache (or the whole of it) lives in a private helper: its parameters are just names for what the
+                    # callers hand in, so the question is asked in the callers' terms - the same terms the un-extracted code is judged in
+                    lifted = _lifted_verdicts(ctx, md, rid, c, g, kroots, vroots, read_roots, 3)
+                    if lifted:
+                        views = [(h, k2, v2, r2, None) for h, k2, v2, r2 in lifted]
+                for h, k2, v2, r2, rk in views:
+                    miss = sorted(p for p in v2 if not _covered(p, k2))
+                    fc = dict(facts)
+                    if h is not g:
+                        fc.update({"cache_statement_in": g.qualname, "key_roots": sorted(k2), "value_roots": _minimal(v2), "not_determined_by_key": miss})
+                    key_mismatch = r2 != k2 and (rk is None or rk != {norm(st.key)})
+                    if key_mismatch:
+                        ctx.violation(rid, h, st.node, f"cache `{c.key}` is read under a key built from {sorted(r2)} but written under "
+                                      f"a key built from {sorted(k2)}: a hit returns a value stored for something else", fc, label=label)
+                    elif miss:
+                        ctx.violation(rid, h, st.node, f"the key of cache `{c.key}` does not determine the cached value: the value stored by "
+                                      f"`{norm(st.node)}` is built from {miss}, which the key `{norm(st.key)}` (built from {sorted(k2)}) "
+                                      f"does not cover; a later caller that agrees only on the key silently receives the value computed for "
+                                      f"the earlier one", fc, label=label)
+                    else:
+                        ctx.ok(rid, h, st.node, f"every input of the cached value ({_minimal(v2)}) is covered by the key "
+                               f"`{norm(st.key)}` ({sorted(k2)})", fc, label=label)
     # ---- (b) import of a generated module by a computed name == cache lookup in sys.modules keyed by that name
     # The "compilation unit" is found by role, not by where the statements happen to live: the function that writes the generated
     # source (directly or inside private helpers, which are spliced in: engine.inline) and reaches the import - directly, or by
@@ -1543,35 +1626,67 @@ def _import_hosts(ctx, md, rid, f, anchor, kroots, depth):
     for g, cs in ctx.cg.call_sites_of(f):
         if g is f or g == f:
             continue
-        bound = {}
-        for i, a in enumerate(cs.args):
-            pn = md._param_for(f, cs, None, i)
-            if pn is not None and not isinstance(a, ast.Starred):
-                bound[pn] = a
-        for k in cs.keywords:
-            pn = md._param_for(f, cs, k.arg, None) if k.arg is not None else None
-            if pn is not None:
-                bound[pn] = k.value
-        slg = Slicer(ctx, g)
-        k2 = set()
-        for r in kroots:
-            if r.startswith("global:"):
-                k2.add(r)
-                continue
-            head, _, rest = r.partition(".")
-            if f.self_name is not None and head == f.self_name:
-                recv = cs.func.value if isinstance(cs.func, ast.Attribute) else None
-                base = slg.roots(recv) if recv is not None else None
-            elif head in bound:
-                base = slg.roots(bound[head])
-            else:
-                base = None
-            if base is None:
-                raise AnalysisError(f"{rid}: cannot express the module name root `{r}` of the import in {f.qual} in terms of its caller "
-                                    f"{g.qual} (`{norm(cs)}`)")
-            for b in base:
-                k2.add(b if b.startswith("global:") or not rest else f"{b}.{rest}")
+        k2 = _roots_in_caller(ctx, md, rid, f, g, cs, kroots)
         out += _import_hosts(ctx, md, rid, g, cs, k2, depth - 1)
+    return out
+
+
+def _roots_in_caller(ctx, md, rid, f: FunctionInfo, g: FunctionInfo, cs: ast.Call, roots: Set[str]) -> Set[str]:
+    """Access-path roots of f (paths on f's parameters) expressed in terms of its caller g at the call site cs."""
+    bound = {}
+    for i, a in enumerate(cs.args):
+        pn = md._param_for(f, cs, None, i)
+        if pn is not None and not isinstance(a, ast.Starred):
+            bound[pn] = a
+    for k in cs.keywords:
+        pn = md._param_for(f, cs, k.arg, None) if k.arg is not None else None
+        if pn is not None:
+            bound[pn] = k.value
+    a = f.node.args
+    pos = [x.arg for x in a.posonlyargs + a.args]
+    for i, dflt in enumerate(a.defaults):
+        bound.setdefault(pos[len(pos) - len(a.defaults) + i], dflt)
+    for x, dflt in zip(a.kwonlyargs, a.kw_defaults):
+        if dflt is not None:
+            bound.setdefault(x.arg, dflt)
+    slg = Slicer(ctx, g)
+    out = set()
+    for r in roots:
+        if r.startswith("global:"):
+            out.add(r)
+            continue
+        head, _, rest = r.partition(".")
+        if f.self_name is not None and head == f.self_name:
+            recv = cs.func.value if isinstance(cs.func, ast.Attribute) else None
+            base = slg.roots(recv) if recv is not None else None
+        elif head in bound:
+            base = slg.roots(bound[head]) if not isinstance(bound[head], ast.Constant) else set()
+        else:
+            base = None
+        if base is None:
+            raise AnalysisError(f"{rid}: cannot express the root `{r}` of {f.qual} in terms of its caller {g.qual} (`{norm(cs)}`)")
+        for b in base:
+            out.add(b if b.startswith("global:") or not rest else f"{b}.{rest}")
+    return out
+
+
+def _lifted_verdicts(ctx, md, rid, c, f: FunctionInfo, kroots, vroots, read_roots, depth):
+    """A keyed cache (container c) inside a private helper f: [(caller, key roots, value roots, read-key roots)] in the terms of
+    the outermost callers (recursively while the caller is private too and does not complete the cache itself); the callers' own
+    keyed reads of c are added to the read keys.  Empty when f is not private or has no resolvable call site."""
+    if depth <= 0 or not f.name.startswith("_") or f.name.startswith("__"):
+        return []
+    out = []
+    for g, cs in ctx.cg.call_sites_of(f):
+        if g == f:
+            continue
+        k2, v2, r2 = (_roots_in_caller(ctx, md, rid, f, g, cs, x) for x in (kroots, vroots, read_roots))
+        slg = Slicer(ctx, g, ignore_global=c.key)
+        own = [e for e in c.events if e.f is g and e.kind == "keyread" and e.key is not None]
+        for e in own:
+            r2 = r2 | slg.roots(e.key)
+        sub = [] if own else _lifted_verdicts(ctx, md, rid, c, g, k2, v2, r2, depth - 1)
+        out += sub if sub else [(g, k2, v2, r2)]
     return out
 
 
@@ -2245,6 +2360,12 @@ class NameFlow:
                     kr = sl.roots(e.key)
                     if path in kr or m.self_name in kr:
                         self.couple(g, c, chain + [f"{m.qualname}: key `{norm(e.key)}` of `{norm(e.node)}` is built from self.{attr}"])
+                        continue
+                    # the store sits in a private helper that receives the key as a parameter: ask its callers
+                    for h, k2, _, _ in _lifted_verdicts(self.ctx, self.md, self.rid, c, m, kr, set(), set(), 3):
+                        if h.self_name is not None and (f"{h.self_name}.{attr}" in k2 or h.self_name in k2):
+                            self.couple(g, c, chain + [f"{h.qualname} -> {m.qualname}: key `{norm(e.key)}` of `{norm(e.node)}` is built from "
+                                                       f"self.{attr}"])
 
     def couple(self, g, c, chain):
         self.couplings.setdefault((g.key, c.key), chain)
